@@ -55,14 +55,32 @@ theorem exp_neg_I (θ : ℝ) : Complex.exp (-(θ : ℂ) * Complex.I) = Complex.c
 
 /-- parity of a symmetric difference (C10): for finite sets, |A Δ B| ≡ |A| + |B| (mod 2). -/
 theorem card_symmDiff_mod_two {α : Type*} [DecidableEq α] (A B : Finset α) :
-    (A ∆ B).card % 2 = (A.card + B.card) % 2 := by
-  have h := Finset.card_symmDiff_add_two_mul_card_inter' A B
+    (symmDiff A B).card % 2 = (A.card + B.card) % 2 := by
+  have hd : Disjoint (A \ B) (B \ A) := by
+    rw [Finset.disjoint_left]
+    intro x hx hy
+    simp only [Finset.mem_sdiff] at hx hy
+    exact hx.2 hy.1
+  have h1 : (symmDiff A B).card = (A \ B).card + (B \ A).card := by
+    rw [symmDiff_def, Finset.sup_eq_union, Finset.card_union_of_disjoint hd]
+  have h2 := Finset.card_sdiff_add_card_inter A B
+  have h3 := Finset.card_sdiff_add_card_inter B A
+  rw [Finset.inter_comm B A] at h3
   omega
 
 /-- sums (C13): the sum of a flattened list is the sum of the sums; a list of `k` copies of `m` sums to `k*m`. -/
 theorem sum_flatten (L : List (List ℤ)) : L.flatten.sum = (L.map List.sum).sum := List.sum_flatten
 theorem sum_replicate (k : ℕ) (m : ℤ) : (List.replicate k m).sum = k * m := by
   simp [List.sum_replicate]
+
+/-- prefix sums of a list of natural numbers are monotone (assumed lemma `nonneg_prefix_sums` of Engine V, C13). -/
+theorem psum_mono (l : List ℕ) {i j : ℕ} (h : i ≤ j) : (l.take i).sum ≤ (l.take j).sum := by
+  have hp : (l.take i).Sublist (l.take j) := by
+    have h2 : (l.take j).take i = l.take i := by
+      rw [List.take_take, Nat.min_eq_left h]
+    rw [← h2]
+    exact List.take_sublist _ _
+  exact hp.sum_le_sum (fun a _ => Nat.zero_le a)
 
 /-- ceiling division used by `_expand_sample_size`: `-(-n / m)` is the ceiling and `(c-1)*m < n ≤ c*m`. -/
 theorem ceil_div_bounds (n m : ℤ) (hm : 0 < m) : (-(-n / m) - 1) * m < n ∧ n ≤ (-(-n / m)) * m := by
